@@ -33,11 +33,12 @@ PROP = {'streams': [('c08', 1200, 300000)],
               'merge_no_panic_fail_unchanged',
               'merge_renaming_ok',
               'api_history_strict',
-              'merge_inv_api_histories'],
+              'merge_inv_api_histories',
+              'api_merge_inv',
+              'api_reachable_inv'],
  'assumptions': ["merge_policyset: the core merge is proved (merge_inv, for arguments satisfying the invariant of API-built sets; the statement with "
-                 "well-formedness only is refuted by mergeInv_false, a core-only slot-less-template counterexample); the API layer's merge (its own "
-                 "policies/templates maps, its get(pid).unwrap()) and a specification-level merge are covered by the correspondence and the harness "
-                 "oracle only",
+                 "well-formedness only is refuted by mergeInv_false, a core-only slot-less-template counterexample); the API layer's merge is proved too (api_merge_inv, api_reachable_inv); a "
+                 "specification-level merge (the abstract Spec has no merge operation) is covered by the correspondence and the harness oracle only",
                  "core-only histories outside the public API's envelope (core link on a static policy's id, core add of a template-linked Policy, "
                  "slot-less template) are compared with the model but excluded from the statement's checks; they can break the invariant and reach "
                  'the panic in unlink',
@@ -51,7 +52,8 @@ TEXT = ('Lean theorems over mirrors of Template::link/check_binding/condition, o
  'core and API, commutes with the abstraction to the abstract specification: after any history the set contains exactly the statics, templates and '
  'links the successful operations imply); api_projection (the API maps are exact projections of the core maps in every reachable state); merge_inv '
  '(merge_policyset preserves the invariant of API-built sets, its unwrap is unreachable, a failed merge changes nothing; merge_renaming_ok: exactly '
- 'the conflicting ids are renamed, to fresh distinct ids); tied to the code by a differential run over operation histories (both layers) plus an '
+ 'the conflicting ids are renamed, to fresh distinct ids); api_merge_inv / api_reachable_inv (the merge of the API layer keeps the invariant and the '
+ 'projections, its unwraps are unreachable; invariant and projections hold in every state reachable by the six operations and merges); tied to the code by a differential run over operation histories (both layers) plus an '
  'abstract-specification oracle evaluated on the implementation.',
- "proof over a hand-written model; the API layer's merge and a specification-level merge are checked only by the sampled/exhaustive-small-scope "
+ 'proof over a hand-written model; a specification-level merge (what a merged set contains, abstractly) is checked only by the sampled/exhaustive-small-scope '
  'correspondence and the harness oracle; merge_inv needs the API envelope (no slot-less bare template): without it mergeInv_false is a counterexample')
